@@ -1215,27 +1215,30 @@ func (m *model) reverse(r *mref) {
 
 // sortKey is the numeric projection the script comparator of op "sort" uses (see jsPrelude, function K).
 func (m *model) sortKey(v mval) float64 {
+	num := func(e mval) float64 {
+		if e.k != mNum || math.IsNaN(e.n) || math.IsInf(e.n, 0) {
+			return 0
+		}
+		i, _ := wrapInt(e.n, 32, true)
+		return float64(i)
+	}
 	switch v.k {
 	case mNum:
 		return v.n
 	case mRef:
-		if v.ref.class() == wStruct {
-			if fv, ok := m.field(v.ref, "A"); ok {
-				switch fv.Kind() {
-				case reflect.Int, reflect.Int8, reflect.Int16, reflect.Int32, reflect.Int64:
-					return float64(int32(fv.Int()))
-				}
-			}
+		if m.isArrayLike(v.ref) {
+			return num(m.get(v.ref, "0"))
 		}
-		if v.ref.class() == wArray || v.ref.class() == wSlice {
-			if v.ref.loc.Len() > 0 {
-				e := v.ref.loc.Index(0)
-				switch e.Kind() {
-				case reflect.Int, reflect.Int8, reflect.Int16, reflect.Int32, reflect.Int64:
-					return float64(int32(e.Int()))
-				}
+		switch v.ref.class() {
+		case wStruct, wIfMap:
+			return num(m.get(v.ref, "A"))
+		case wMap:
+			if v.ref.loc.Type().Key().Kind() == reflect.String {
+				return num(m.get(v.ref, "A"))
 			}
+			skip("sort key of a numeric-keyed map")
 		}
+		skip("sort key of an opaque value")
 	}
 	return 0
 }
